@@ -32,6 +32,7 @@ type Scenario struct {
 	Order string `json:"order"` // int | rev | str
 	U     int    `json:"u"`     // key universe size
 	Ops   []Op   `json:"ops"`
+	ShowMask int `json:"showMask,omitempty"` // 0: the printed form is read after every step; else only after step i when bit i%30 is set
 	Ops2  []Op   `json:"ops2,omitempty"` // history of a SECOND list living in the same process, executed step-interleaved with the first
 	H     []int  `json:"h"`
 }
@@ -60,6 +61,9 @@ func gen(t *rapid.T) Scenario {
 	sc.H = rapid.SliceOfNDistinct(rapid.IntRange(0, 1<<30), 3, 3, rapid.ID[int]).Draw(t, "h")
 	if rapid.IntRange(0, 3).Draw(t, "second") == 0 {
 		sc.Ops2 = rapid.SliceOfN(rapid.Custom(genOp), 1, 40).Draw(t, "ops2")
+	}
+	if rapid.IntRange(0, 2).Draw(t, "sparsePrints") == 0 {
+		sc.ShowMask = rapid.IntRange(1, 1<<30-1).Draw(t, "showMask")
 	}
 	return sc
 }
@@ -143,7 +147,11 @@ func runOne[K comparable](sc Scenario, w *world[K]) string {
 				return fmt.Sprintf("after %s: Get(%s) = %d, map model says %d", at, w.show(u), got, want)
 			}
 		}
-		// printed form
+		// printed form: after every step, or - when the scenario says so - only after the steps of its mask and the last
+		// one (a printed form remembered between steps must not survive a change it was not asked about)
+		if sc.ShowMask != 0 && i != len(sc.Ops)-1 && sc.ShowMask>>(uint(i)%30)&1 == 0 {
+			continue
+		}
 		str, ok := w.list.(fmt.Stringer)
 		if !ok {
 			return "skip list is not a fmt.Stringer"
